@@ -47,7 +47,10 @@ type LegCase struct {
 	Rounds   [][][]LegOp `json:"rounds"` // round -> producer -> callbacks
 	ImagePct int         `json:"image_pct"`
 	IndexSet bool        `json:"index_set,omitempty"` // resbadger models maintain an index set in the apply transactions
-	Optional []string    `json:"optional"`
+	// Map: resbadger models are served through a Map callback (it hides
+	// property "b" and adds "mapped"); storage and Value are unmapped
+	Map      bool     `json:"map,omitempty"`
+	Optional []string `json:"optional"`
 }
 
 // LegacyScenario: the deprecated BadgerDB middleware serves the fold of the
@@ -96,6 +99,7 @@ func (LegacyScenario) GenCase(r *rand.Rand, prop string) interface{} {
 	c := &LegCase{Pkg: pick(r, "middleware", "resbadger"), Default: chance(r, 50), Typed: chance(r, 40), Workers: pick(r, 1, 2, 4)}
 	c.ImagePct = pick(r, 0, 10, 30)
 	c.IndexSet = c.Pkg == "resbadger" && chance(r, 50)
+	c.Map = c.Pkg == "resbadger" && chance(r, 35)
 	for _, p := range []string{"conn.Publish", "event", "rawEvent", "worker.beforeCb", "worker.afterCb", "runWith.beforeLock", "handler", "handleRequest", "auto.lock", "badger.commit", "badger.view", "badger.update"} {
 		if chance(r, 60) {
 			c.Optional = append(c.Optional, p)
@@ -208,6 +212,17 @@ func jsonClone(v interface{}) interface{} {
 // through the typed model struct with omitempty fields does).
 // projectTyped is what a model looks like after a round trip through
 // legModelT: null properties are gone, n is always there.
+// legMapped is what the Map callback makes of a stored model.
+func legMapped(m map[string]interface{}) map[string]interface{} {
+	out := map[string]interface{}{"mapped": 1}
+	for k, v := range m {
+		if k != "b" {
+			out[k] = v
+		}
+	}
+	return out
+}
+
 func projectTyped(v interface{}) interface{} {
 	v = dropNulls(v)
 	if m, ok := v.(map[string]interface{}); ok {
@@ -452,6 +467,20 @@ func (LegacyScenario) Execute(sim *sched.Sim, ci interface{}, prop string, race 
 			if mtyp != nil {
 				mo = mo.WithType(mtyp)
 			}
+			if c.Map {
+				mo = mo.WithMap(func(v interface{}) (interface{}, error) {
+					sim.Probe("legacy.map")
+					var m map[string]interface{}
+					b, err := json.Marshal(v)
+					if err == nil {
+						err = json.Unmarshal(b, &m)
+					}
+					if err != nil {
+						return nil, err
+					}
+					return legMapped(m), nil
+				})
+			}
 			if c.IndexSet {
 				// the index key is the value of property "a"
 				mo = mo.WithIndexSet(&resbadger.IndexSet{Indexes: []resbadger.Index{{Name: "ia", Key: func(v interface{}) []byte {
@@ -513,6 +542,17 @@ func (LegacyScenario) Execute(sim *sched.Sim, ci interface{}, prop string, race 
 				continue
 			}
 			want, have := lr.served(rid, st.present, st.val)
+			if c.Map && st.present && !lr.coll(rid) {
+				// a stored model is served through the Map callback, which
+				// is handed the value in its Go type
+				w := jsonClone(want)
+				if c.Typed {
+					w = projectTyped(w)
+				}
+				if wm, ok := w.(map[string]interface{}); ok {
+					want = legMapped(wm)
+				}
+			}
 			got := "<missing>"
 			if ce.Present {
 				if ce.IsColl {
